@@ -447,15 +447,15 @@ func (p *PQL) Execute() {
 		case ruleAction17:
 			p.addField("from")
 		case ruleAction18:
-			p.addVal(buffer[begin:end])
+			p.addVal(text)
 		case ruleAction19:
 			p.addField("to")
 		case ruleAction20:
-			p.addVal(buffer[begin:end])
+			p.addVal(text)
 		case ruleAction21:
 			p.endCall()
 		case ruleAction22:
-			p.startCall(buffer[begin:end])
+			p.startCall(text)
 		case ruleAction23:
 			p.endCall()
 		case ruleAction24:
@@ -477,11 +477,11 @@ func (p *PQL) Execute() {
 		case ruleAction32:
 			p.endConditional()
 		case ruleAction33:
-			p.condAdd(buffer[begin:end])
+			p.condAdd(text)
 		case ruleAction34:
-			p.condAdd(buffer[begin:end])
+			p.condAdd(text)
 		case ruleAction35:
-			p.condAdd(buffer[begin:end])
+			p.condAdd(text)
 		case ruleAction36:
 			p.startList()
 		case ruleAction37:
@@ -493,40 +493,39 @@ func (p *PQL) Execute() {
 		case ruleAction40:
 			p.addVal(false)
 		case ruleAction41:
-			p.addVal(buffer[begin:end])
+			p.addVal(text)
 		case ruleAction42:
-			p.addNumVal(buffer[begin:end])
+			p.addNumVal(text)
 		case ruleAction43:
-			p.addNumVal(buffer[begin:end])
+			p.addNumVal(text)
 		case ruleAction44:
-			p.startCall(buffer[begin:end])
+			p.startCall(text)
 		case ruleAction45:
 			p.addVal(p.endCall())
 		case ruleAction46:
-			p.addVal(buffer[begin:end])
+			p.addVal(text)
 		case ruleAction47:
-			s, _ := strconv.Unquote(buffer[begin:end])
-			p.addVal(s)
+			p.addVal(unquote(text))
 		case ruleAction48:
-			p.addVal(buffer[begin:end])
+			p.addVal(text)
 		case ruleAction49:
-			p.addField(buffer[begin:end])
+			p.addField(text)
 		case ruleAction50:
-			p.addPosStr("_field", buffer[begin:end])
+			p.addPosStr("_field", text)
 		case ruleAction51:
-			p.addPosNum("_col", buffer[begin:end])
+			p.addPosNum("_col", text)
 		case ruleAction52:
-			p.addPosStr("_col", buffer[begin:end])
+			p.addPosStr("_col", text)
 		case ruleAction53:
-			p.addPosStr("_col", buffer[begin:end])
+			p.addPosStr("_col", unquote("\""+text+"\""))
 		case ruleAction54:
-			p.addPosNum("_row", buffer[begin:end])
+			p.addPosNum("_row", text)
 		case ruleAction55:
-			p.addPosStr("_row", buffer[begin:end])
+			p.addPosStr("_row", text)
 		case ruleAction56:
-			p.addPosStr("_row", buffer[begin:end])
+			p.addPosStr("_row", unquote("\""+text+"\""))
 		case ruleAction57:
-			p.addPosStr("_timestamp", buffer[begin:end])
+			p.addPosStr("_timestamp", text)
 
 		}
 	}
@@ -679,12 +678,8 @@ func (p *PQL) Init() {
 						}
 						{
 							position12 := position
-							{
-								position13 := position
-								if !_rules[ruletimestampfmt]() {
-									goto l10
-								}
-								add(rulePegText, position13)
+							if !_rules[ruletimestampfmt]() {
+								goto l10
 							}
 							{
 								add(ruleAction57, position)
@@ -1775,7 +1770,7 @@ func (p *PQL) Init() {
 			position, tokenIndex = position133, tokenIndex133
 			return false
 		},
-		/* 12 item <- <(('n' 'u' 'l' 'l' &(comma / (sp close)) Action38) / ('t' 'r' 'u' 'e' &(comma / (sp close)) Action39) / ('f' 'a' 'l' 's' 'e' &(comma / (sp close)) Action40) / (timestampfmt Action41) / (<('-'? [0-9]+ ('.' [0-9]*)?)> Action42) / (<('-'? '.' [0-9]+)> Action43) / (<IDENT> Action44 open allargs comma? close Action45) / (<([a-z] / [A-Z] / [0-9] / '-' / '_' / ':')+> Action46) / (<('"' doublequotedstring '"')> Action47) / ('\'' <singlequotedstring> '\'' Action48))> */
+		/* 12 item <- <(('n' 'u' 'l' 'l' &(comma / (sp close) / rbrack) Action38) / ('t' 'r' 'u' 'e' &(comma / (sp close) / rbrack) Action39) / ('f' 'a' 'l' 's' 'e' &(comma / (sp close) / rbrack) Action40) / (timestampfmt Action41) / (<('-'? [0-9]+ ('.' [0-9]*)?)> Action42) / (<('-'? '.' [0-9]+)> Action43) / (<IDENT> Action44 open allargs comma? close Action45) / (<([a-z] / [A-Z] / [0-9] / '-' / '_' / ':')+> Action46) / (<('"' doublequotedstring '"')> Action47) / ('\'' <singlequotedstring> '\'' Action48))> */
 		func() bool {
 			position137, tokenIndex137 := position, tokenIndex
 			{
@@ -1809,9 +1804,22 @@ func (p *PQL) Init() {
 						l143:
 							position, tokenIndex = position142, tokenIndex142
 							if !_rules[rulesp]() {
-								goto l140
+								goto l143b
 							}
 							if !_rules[ruleclose]() {
+								goto l143b
+							}
+							goto l142
+						l143b:
+							position, tokenIndex = position142, tokenIndex142
+							if !_rules[rulesp]() {
+								goto l140
+							}
+							if buffer[position] != rune(']') {
+								goto l140
+							}
+							position++
+							if !_rules[rulesp]() {
 								goto l140
 							}
 						}
@@ -1851,9 +1859,22 @@ func (p *PQL) Init() {
 						l148:
 							position, tokenIndex = position147, tokenIndex147
 							if !_rules[rulesp]() {
-								goto l145
+								goto l148b
 							}
 							if !_rules[ruleclose]() {
+								goto l148b
+							}
+							goto l147
+						l148b:
+							position, tokenIndex = position147, tokenIndex147
+							if !_rules[rulesp]() {
+								goto l145
+							}
+							if buffer[position] != rune(']') {
+								goto l145
+							}
+							position++
+							if !_rules[rulesp]() {
 								goto l145
 							}
 						}
@@ -1897,9 +1918,22 @@ func (p *PQL) Init() {
 						l153:
 							position, tokenIndex = position152, tokenIndex152
 							if !_rules[rulesp]() {
-								goto l150
+								goto l153b
 							}
 							if !_rules[ruleclose]() {
+								goto l153b
+							}
+							goto l152
+						l153b:
+							position, tokenIndex = position152, tokenIndex152
+							if !_rules[rulesp]() {
+								goto l150
+							}
+							if buffer[position] != rune(']') {
+								goto l150
+							}
+							position++
+							if !_rules[rulesp]() {
 								goto l150
 							}
 						}
@@ -3006,7 +3040,7 @@ func (p *PQL) Init() {
 			position, tokenIndex = position294, tokenIndex294
 			return false
 		},
-		/* 31 timestamp <- <(<timestampfmt> Action57)> */
+		/* 31 timestamp <- <(timestampfmt Action57)> */
 		nil,
 		/* 33 Action0 <- <{p.startCall("Set")}> */
 		nil,
@@ -3044,16 +3078,16 @@ func (p *PQL) Init() {
 		nil,
 		/* 50 Action17 <- <{p.addField("from")}> */
 		nil,
-		/* 51 Action18 <- <{p.addVal(buffer[begin:end])}> */
+		/* 51 Action18 <- <{p.addVal(text)}> */
 		nil,
 		/* 52 Action19 <- <{p.addField("to")}> */
 		nil,
-		/* 53 Action20 <- <{p.addVal(buffer[begin:end])}> */
+		/* 53 Action20 <- <{p.addVal(text)}> */
 		nil,
 		/* 54 Action21 <- <{p.endCall()}> */
 		nil,
 		nil,
-		/* 56 Action22 <- <{ p.startCall(buffer[begin:end] ) }> */
+		/* 56 Action22 <- <{ p.startCall(text ) }> */
 		nil,
 		/* 57 Action23 <- <{ p.endCall() }> */
 		nil,
@@ -3075,11 +3109,11 @@ func (p *PQL) Init() {
 		nil,
 		/* 66 Action32 <- <{p.endConditional()}> */
 		nil,
-		/* 67 Action33 <- <{p.condAdd(buffer[begin:end])}> */
+		/* 67 Action33 <- <{p.condAdd(text)}> */
 		nil,
-		/* 68 Action34 <- <{p.condAdd(buffer[begin:end])}> */
+		/* 68 Action34 <- <{p.condAdd(text)}> */
 		nil,
-		/* 69 Action35 <- <{p.condAdd(buffer[begin:end])}> */
+		/* 69 Action35 <- <{p.condAdd(text)}> */
 		nil,
 		/* 70 Action36 <- <{ p.startList() }> */
 		nil,
@@ -3091,39 +3125,39 @@ func (p *PQL) Init() {
 		nil,
 		/* 74 Action40 <- <{ p.addVal(false) }> */
 		nil,
-		/* 75 Action41 <- <{ p.addVal(buffer[begin:end]) }> */
+		/* 75 Action41 <- <{ p.addVal(text) }> */
 		nil,
-		/* 76 Action42 <- <{ p.addNumVal(buffer[begin:end]) }> */
+		/* 76 Action42 <- <{ p.addNumVal(text) }> */
 		nil,
-		/* 77 Action43 <- <{ p.addNumVal(buffer[begin:end]) }> */
+		/* 77 Action43 <- <{ p.addNumVal(text) }> */
 		nil,
-		/* 78 Action44 <- <{ p.startCall(buffer[begin:end]) }> */
+		/* 78 Action44 <- <{ p.startCall(text) }> */
 		nil,
 		/* 79 Action45 <- <{ p.addVal(p.endCall()) }> */
 		nil,
-		/* 80 Action46 <- <{ p.addVal(buffer[begin:end]) }> */
+		/* 80 Action46 <- <{ p.addVal(text) }> */
 		nil,
-		/* 81 Action47 <- <{ s, _ := strconv.Unquote(buffer[begin:end]); p.addVal(s) }> */
+		/* 81 Action47 <- <{ p.addVal(unquote(text)) }> */
 		nil,
-		/* 82 Action48 <- <{ p.addVal(buffer[begin:end]) }> */
+		/* 82 Action48 <- <{ p.addVal(text) }> */
 		nil,
-		/* 83 Action49 <- <{ p.addField(buffer[begin:end]) }> */
+		/* 83 Action49 <- <{ p.addField(text) }> */
 		nil,
-		/* 84 Action50 <- <{ p.addPosStr("_field", buffer[begin:end]) }> */
+		/* 84 Action50 <- <{ p.addPosStr("_field", text) }> */
 		nil,
-		/* 85 Action51 <- <{p.addPosNum("_col", buffer[begin:end])}> */
+		/* 85 Action51 <- <{p.addPosNum("_col", text)}> */
 		nil,
-		/* 86 Action52 <- <{p.addPosStr("_col", buffer[begin:end])}> */
+		/* 86 Action52 <- <{p.addPosStr("_col", text)}> */
 		nil,
-		/* 87 Action53 <- <{p.addPosStr("_col", buffer[begin:end])}> */
+		/* 87 Action53 <- <{p.addPosStr("_col", unquote("\"" + text + "\""))}> */
 		nil,
-		/* 88 Action54 <- <{p.addPosNum("_row", buffer[begin:end])}> */
+		/* 88 Action54 <- <{p.addPosNum("_row", text)}> */
 		nil,
-		/* 89 Action55 <- <{p.addPosStr("_row", buffer[begin:end])}> */
+		/* 89 Action55 <- <{p.addPosStr("_row", text)}> */
 		nil,
-		/* 90 Action56 <- <{p.addPosStr("_row", buffer[begin:end])}> */
+		/* 90 Action56 <- <{p.addPosStr("_row", unquote("\"" + text + "\""))}> */
 		nil,
-		/* 91 Action57 <- <{p.addPosStr("_timestamp", buffer[begin:end])}> */
+		/* 91 Action57 <- <{p.addPosStr("_timestamp", text)}> */
 		nil,
 	}
 	p.rules = _rules
